@@ -7,6 +7,7 @@ import (
 	"bytes"
 	"math/big"
 	"sort"
+	"strings"
 
 	"pgregory.net/rapid"
 )
@@ -46,6 +47,8 @@ func GenSpec(t *rapid.T) WorldSpec {
 	spec := genSpecBase(t, n)
 	// mostly active from genesis; sometimes the three gated functions become active only at a later epoch
 	spec.ActivationEpoch = rapid.SampledFrom([]uint32{0, 0, 0, 0, 1, 2, 3}).Draw(t, "activation")
+	// mostly built at genesis; sometimes the chain is already in a later epoch when the containers are built
+	spec.StartEpoch = rapid.SampledFrom([]uint32{0, 0, 0, 0, 0, 1, 2, 3, 5}).Draw(t, "start-epoch")
 	// sometimes the factory hears of a schedule change before it builds the container (accepted, or one with a hole)
 	switch rapid.IntRange(0, 7).Draw(t, "gas-before-create") {
 	case 0:
@@ -286,7 +289,8 @@ func (g *Gen) attachedCall(label string, dest []byte) [][]byte {
 	if k < 3 {
 		return nil
 	}
-	fn := pickFrom(g, label+"fn", [][]byte{[]byte("accept"), []byte("f"), []byte("doSomething_1")})
+	// a function name is whatever bytes the user put there (non-empty, no '@'): padding and control characters included
+	fn := pickFrom(g, label+"fn", [][]byte{[]byte("accept"), []byte("f"), []byte("doSomething_1"), []byte("accept"), []byte("f"), []byte("claim "), []byte(" f"), []byte("a b"), []byte("f\n"), []byte("\tx"), {0xff, 0xfe}, []byte("ESDTTransfer")})
 	out := [][]byte{fn}
 	n := g.pick(label+"n", 4)
 	for i := 0; i < n; i++ {
@@ -1116,6 +1120,36 @@ func (g *Gen) genGasOp() Op {
 			delete(gm[refBaseOperationCostSection], baseCostNames[i])
 		} else {
 			delete(gm[refBuiltInCostSection], builtInCostNames[i-6])
+		}
+	}
+	// the node's schedule files do not spell every key like the library's struct fields (ESDTNFTAddUri): the factory
+	// matches keys case-insensitively, so a re-cased key is the same entry
+	if g.pick("gas-recase", 5) == 0 {
+		i := g.pick("gas-recase-which", 22)
+		sect, name := refBaseOperationCostSection, ""
+		if i < 6 {
+			name = baseCostNames[i]
+		} else {
+			sect, name = refBuiltInCostSection, builtInCostNames[i-6]
+		}
+		if v, ok := gm[sect][name]; ok {
+			var re string
+			switch g.pick("gas-recase-how", 3) {
+			case 0:
+				re = strings.ToLower(name)
+			case 1:
+				re = strings.ToUpper(name)
+			default:
+				re = name[:len(name)-1] + strings.ToLower(name[len(name)-1:])
+				if re == name {
+					re = name[:len(name)-1] + strings.ToUpper(name[len(name)-1:])
+				}
+			}
+			if re != name {
+				delete(gm[sect], name)
+				gm[sect][re] = v
+				g.Shape = append(g.Shape, "gas-key-recased")
+			}
 		}
 	}
 	return Op{Kind: "gas", Shard: sh, Gas: gm}
